@@ -130,6 +130,7 @@ void STUB(iv_tls_user_register)(struct iv_tls_user *itu) { }
 static void v_stop(void *c) { __CPROVER_assert(c == (void *)&v_pub, "hook cookie"); g_stop_calls++; }
 static void v_start(void *c) { __CPROVER_assert(c == (void *)&v_pub, "hook cookie"); g_start_calls++; }
 
+static int g_local_mode, g_local_cont;
 static void v_work(void *c)
 {
 	int i = (struct iv_work_item *)c - v_item;
@@ -145,6 +146,11 @@ static void v_work(void *c)
 		verif_in.owner = 0;
 		iv_work_pool_submit_continuation(&v_pub, &v_new);
 		verif_in.owner = o;
+	}
+	/* with a NULL pool: a work function may submit a further local item */
+	if (g_calls <= NWI && verif_in.act[g_calls] == 1 && v_pub.priv == NULL && g_local_mode && !g_local_cont) {
+		g_local_cont = 1;
+		iv_work_pool_submit_continuation(NULL, &v_new);
 	}
 	g_calls++;
 }
@@ -278,7 +284,7 @@ void h_thread_got_event(void)
 		__CPROVER_assert(p == &v_item[0].list, "[C12] finished items are queued for completion in order");
 	}
 	if (g_frees == 0) {
-		__CPROVER_assert(v_thr->kicked == 0 || g_calls > 0, "[C12] the kick is consumed");
+		__CPROVER_assert(v_thr->kicked == 0 || g_calls > 0, "[C12,C13] the kick is consumed, also when another worker took the item first: an idle worker is never left marked as kicked, so the idle timer and the shutdown can retire it");
 		if (v_pool->seq_head == v_pool->seq_tail) {
 			__CPROVER_assert(!verif_in.shutting, "[C13] a worker that runs out of work during shutdown retires");
 			__CPROVER_assert(v_pool->idle_threads.next == &v_thr->list && g_treg == 1 && g_treg_arg == &v_thr->idle_timer, "[C12] out of work: the worker goes idle with its idle timer armed");
@@ -412,11 +418,18 @@ void h_local(void)
 	}
 	__CPROVER_assert(g_task_reg == (verif_in.nitems > 0 ? 1 : 0), "[C12] with a NULL pool the first pending item registers the thread's task, later ones ride along");
 	v_pub.priv = NULL;
+	g_local_mode = 1; g_local_cont = 0;
 	iv_work_handle_local(&v_tinfo);
 	for (i = 0; i < NWI; i++)
 		if (i < verif_in.nitems)
 			__CPROVER_assert(g_work_runs[i] == 1 && g_comp_runs[i] == 1, "[C12] NULL pool: work function and completion each run exactly once, from the task, in the submitting thread");
-	__CPROVER_assert(iv_list_empty(&v_tinfo.work_items), "[C12] nothing is left queued");
+	if (!g_local_cont) {
+		__CPROVER_assert(iv_list_empty(&v_tinfo.work_items), "[C12] nothing is left queued");
+	} else {
+		__CPROVER_assert(v_tinfo.work_items.next == &v_new.list && v_new.list.next == &v_tinfo.work_items && g_work_runs[NWI] == 0,
+				 "[C12] an item submitted by a work function of the running batch (the last one included) is queued for the next round, not run or dropped in this one");
+		__CPROVER_assert(g_task_reg == 2, "[C12] and the thread's task is registered again for it: the item cannot be stranded");
+	}
 	CANARY();
 }
 
